@@ -225,7 +225,7 @@ func Read(r *bufio.Reader, l *log.Logger) (Message, error) {
 		switch subtype {
 		case 0:
 			var ext extensionInfo
-			lr := io.LimitReader(r, int64(length-2))
+			lr := &io.LimitedReader{R: r, N: int64(length - 2)}
 			decoder := bencode.NewDecoder(lr)
 			err = decoder.Decode(&ext)
 			if err != nil {
@@ -234,6 +234,9 @@ func Read(r *bufio.Reader, l *log.Logger) (Message, error) {
 			_, err = io.Copy(io.Discard, lr)
 			if err != nil {
 				return nil, err
+			}
+			if lr.N > 0 {
+				return nil, io.ErrUnexpectedEOF
 			}
 			m := Extended0{}
 
@@ -258,7 +261,7 @@ func Read(r *bufio.Reader, l *log.Logger) (Message, error) {
 			return m, nil
 		case ExtPex:
 			var info pexInfo
-			lr := io.LimitReader(r, int64(length-2))
+			lr := &io.LimitedReader{R: r, N: int64(length - 2)}
 			decoder := bencode.NewDecoder(lr)
 			err := decoder.Decode(&info)
 			if err != nil {
@@ -267,6 +270,9 @@ func Read(r *bufio.Reader, l *log.Logger) (Message, error) {
 			_, err = io.Copy(io.Discard, lr)
 			if err != nil {
 				return nil, err
+			}
+			if lr.N > 0 {
+				return nil, io.ErrUnexpectedEOF
 			}
 			var added, dropped []pex.Peer
 			if info.Added != nil && len(info.Added)%6 == 0 {
